@@ -14,6 +14,7 @@ import numpy as np
 import common as C
 import implutil as U
 
+STATIC = ["Model/Eject.vo"]
 IMPORTS = "From SSP Require Import Model.Eject."
 
 
